@@ -249,9 +249,23 @@ fn run<T: Flt>(src: &mut Src, obs: &mut Obs, two_d: bool) -> Result<(), Fail> {
     // history
     let nops = src.usize_in(1, 60);
     let mut ops: Vec<Op<T>> = Vec::with_capacity(nops);
+    let mut repeated = false;
     let mut kinds = std::collections::BTreeSet::new();
     let finite_bad = [RQ::BelowUlp, RQ::AboveUlp, RQ::FarBelow, RQ::FarAbove, RQ::PMax, RQ::NMax];
     for _ in 0..nops {
+        // 1 of 6 operations repeats its predecessor (the same call twice in a row - also a failing one), or asks for the
+        // predecessor's point through the other single-point entry
+        if !ops.is_empty() && src.chance(1, 6) {
+            let prev = ops.last().unwrap().clone();
+            let op = match (&prev, src.bool()) {
+                (Op::Scalar(x, y), true) => Op::Interp(*x, *y),
+                (Op::Interp(x, y), true) if scalar_ok => Op::Scalar(*x, *y),
+                _ => prev,
+            };
+            repeated = true;
+            ops.push(op);
+            continue;
+        }
         let mut point = |src: &mut Src| -> (T, T) {
             // mostly in range; sometimes out of range (finite, so that extrapolating interpolators never panic)
             let bad = src.chance(1, 5);
@@ -307,6 +321,9 @@ fn run<T: Flt>(src: &mut Src, obs: &mut Obs, two_d: bool) -> Result<(), Fail> {
             }
         };
         ops.push(op);
+    }
+    if repeated {
+        obs.class("history:repeated-call");
     }
     // reference: every op alone on a fresh interpolator
     let mut expected: Vec<Outcome> = Vec::with_capacity(nops);
